@@ -245,6 +245,24 @@ fn directed_ops(rep: &mut Report, only: Option<&str>) {
             Op::Delete { table: "T".into(), cond: Some(em::MExpr::Bin(em::Bin::Eq, Box::new(em::MExpr::Col("K".into())), Box::new(em::MExpr::Lit(V::Int(1))))) },
         ],
     ));
+    // the width of a string column counts characters, not bytes of any encoding
+    {
+        let keqi = |k: i32| Some(em::MExpr::Bin(em::Bin::Eq, Box::new(em::MExpr::Col("K".into())), Box::new(em::MExpr::Lit(V::Int(k)))));
+        let narrow = vec![ColDef::new("K", CT::Int16).key(), ColDef::new("S", CT::Str(5)).nullable(), ColDef::new("W", CT::Str(1)).nullable()];
+        scen.push((
+            "non-ascii-values-at-the-column-width".into(),
+            vec![
+                Op::CreateTable { name: "N".into(), cols: narrow },
+                Op::Insert { table: "N".into(), rows: vec![vec![V::Int(1), V::s("Renée"), V::s("é")]] },
+                Op::Insert { table: "N".into(), rows: vec![vec![V::Int(2), V::s("日本語テキ"), V::s("日")], vec![V::Int(3), V::s("ascii"), V::Null]] },
+                Op::Insert { table: "N".into(), rows: vec![vec![V::Int(4), V::s("Renée!"), V::Null]] },
+                Op::Update { table: "N".into(), sets: vec![("S".into(), V::s("ñandú"))], cond: keqi(3) },
+                Op::Update { table: "N".into(), sets: vec![("W".into(), V::s("😀"))], cond: None },
+                Op::Update { table: "N".into(), sets: vec![("S".into(), V::s("ñandúes"))], cond: keqi(1) },
+                Op::Delete { table: "N".into(), cond: keqi(2) },
+            ],
+        ));
+    }
     let mon = monitors();
     for (name, ops) in scen {
         if only.map(|o| o != name).unwrap_or(false) {
